@@ -25,11 +25,28 @@ def bgd_shader(decls, use=False, names=None, tys=None):
     return {"structs": [], "globals": gl, "consts": [], "overrides": [], "functions": [], "entries": [frag_entry(body=body)]}
 
 
+def interleave_plain_globals(S, k):
+    """declare variables without a binding (private / workgroup / push constant) between the resource variables, position chosen by k"""
+    extra = [{"name": "pv_state", "space": "private", "ty": {"k": "scalar", "s": "f32"}}, {"name": "wg_tile", "space": "workgroup", "ty": {"k": "array", "n": 4, "e": {"k": "scalar", "s": "u32"}}},
+             {"name": "pc", "space": "push", "ty": {"k": "vec", "n": 4, "s": "f32"}}]
+    gl = S["globals"]
+    x = extra[k % 3]
+    if not any(g["name"] == x["name"] for g in gl):
+        gl.insert((k // 3) % (len(gl) + 1), x)
+    if k % 5 == 0:
+        y = extra[(k + 1) % 3]
+        if not any(g["name"] == y["name"] for g in gl):
+            gl.insert(0, y)
+    return S
+
+
 def bgd_cases_from_export(exported, quick):
     cases = []
     for i, e in enumerate(exported):
         d = e["decls"]
         cases.append({"id": "bgd-%05d" % i, "family": "bgd-export", "S": bgd_shader(d), "opts": opts()})
+        if i % 4 == 2:
+            cases.append({"id": "bgd-%05d-p" % i, "family": "bgd-export-interleaved", "S": interleave_plain_globals(bgd_shader(d), i // 4), "opts": opts()})
         # every 4th sequence also with all variables used and the validator on (its own error may pre-empt)
         if i % 4 == 0:
             cases.append({"id": "bgd-%05d-v" % i, "family": "bgd-export-validated", "S": bgd_shader(d, use=True), "opts": opts(validate="all")})
@@ -88,7 +105,67 @@ CTXS = ["plain", "if_accept", "if_reject", "if_else_if", "switch_case", "switch_
 FORMATS_F = ["rgba8unorm", "rgba8snorm", "rgba16float", "r32float", "rg32float", "rgba32float"]
 FORMATS_U = ["rgba8uint", "rgba16uint", "r32uint", "rg32uint", "rgba32uint"]
 FORMATS_I = ["rgba8sint", "rgba16sint", "r32sint", "rg32sint", "rgba32sint"]
-IDENT_POOL = ["camera", "light", "params", "data", "tint", "bones", "αβγ", "größe", "café", "数据", "Δt", "naïve", "x1", "_u"]
+IDENT_POOL = ["camera", "light", "params", "data", "tint", "bones", "αβγ", "größe", "café", "数据", "Δt", "naïve", "x1", "_u",
+              "simParams", "ColorTexture", "MAX_LIGHTS", "myData2D", "HTTPBuffer", "g_Scene"]
+GLOBAL_NAME_STYLES = [lambda n: "sim" + n.capitalize(), lambda n: n.capitalize() + "Tex", lambda n: "MAX_" + n.upper(), lambda n: n + "2D", lambda n: "g_" + n.capitalize(),
+                      lambda n: n + "_", lambda n: "HTTP" + n.capitalize() + "Buf"]
+
+
+ALIAS_NAMES = ["Color", "Weights", "Real", "Mat", "Block4", "index_t"]
+
+
+def add_aliases(S, rng, k=2):
+    """declare `alias` names for some non-struct member / variable types: naga gives such types a name, but they are not structs"""
+    seen = []
+
+    def collect(t):
+        if t["k"] in ("scalar", "vec", "mat", "array") and t not in seen:
+            seen.append(t)
+        if t["k"] in ("array", "rtarray"):
+            collect(t["e"])
+    for d in S["structs"]:
+        for m in d["members"]:
+            collect(m["ty"])
+    for g in S["globals"]:
+        if g["ty"]["k"] not in ("tex", "sampler"):
+            collect(g["ty"])
+    seen = [t for t in seen if not (t["k"] == "scalar" and t["s"] == "bool")]
+    taken = {d["name"] for d in S["structs"]} | {g["name"] for g in S["globals"]} | {f["name"] for f in S["functions"]} | {e["name"] for e in S["entries"]}
+    names = [n for n in ALIAS_NAMES if n not in taken]
+    rng.shuffle(names)
+    S["aliases"] = [{"name": names[i], "ty": t} for i, t in enumerate(rng.sample(seen, min(k, len(seen), len(names))))]
+    return S
+
+
+def restyle_globals(S, rng, p=1.0):
+    """give module-scope variables names in other styles (camelCase, PascalCase, UPPER_CASE, trailing underscore): WGSL accepts them all
+    and the generated field / parameter names must follow them verbatim"""
+    taken = {g["name"] for g in S["globals"]} | {d["name"] for d in S["structs"]} | {f["name"] for f in S["functions"]} | {e["name"] for e in S["entries"]} \
+        | {c["name"] for c in S.get("consts", [])} | {o["name"] for o in S.get("overrides", [])}
+    mp = {}
+    for g in S["globals"]:
+        if rng.random() < p:
+            new = rng.choice(GLOBAL_NAME_STYLES)(g["name"])
+            if new not in taken and new.isascii():
+                taken.add(new)
+                mp[g["name"]] = new
+
+    def fix(t):
+        if isinstance(t, dict):
+            if t.get("k") == "access":
+                for key in ("g", "with"):
+                    if t.get(key) in mp:
+                        t[key] = mp[t[key]]
+            for v in t.values():
+                fix(v)
+        elif isinstance(t, list):
+            for v in t:
+                fix(v)
+    for g in S["globals"]:
+        g["name"] = mp.get(g["name"], g["name"])
+    fix(S["functions"])
+    fix(S["entries"])
+    return S
 
 
 def rand_leaf(rng, allow_mat=True):
@@ -511,20 +588,100 @@ def host_members(rng, space, inner=None, big_arrays=False):
                 t = rng.choice([{"k": "struct", "name": inner}, {"k": "array", "n": 2, "e": {"k": "struct", "name": inner}}])
             else:
                 t = rand_leaf(rng)
-        mem.append({"name": "f%d" % j, "ty": t})
+        mem.append({"name": ("_pad%d" % j if rng.random() < 0.12 else "_padding" if rng.random() < 0.03 and not any(m["name"] == "_padding" for m in mem) else "f%d" % j), "ty": t})
     return mem
 
 
-ENTRY_NAMES = {"vs_main": ["vs_main", "vs_na\u00efve", "VS_Main", "gr\u00f6\u00dfe_vs", "v"], "fs_main": ["fs_main", "fs_caf\u00e9", "fragment\u03c3", "fsMain2"],
-               "cs_main": ["cs_main", "\u03c3\u03ba\u03b9\u03ac", "update_particles", "cs\u00df"], "vs_shadow": ["vs_shadow", "shadow_\u00e9"]}
+ENTRY_NAMES = {"vs_main": ["vs_main", "vs_na\u00efve", "VS_Main", "gr\u00f6\u00dfe_vs", "v", "vertexMain", "vsMain_2"], "fs_main": ["fs_main", "fs_caf\u00e9", "fragment\u03c3", "fsMain2"],
+               "cs_main": ["cs_main", "\u03c3\u03ba\u03b9\u03ac", "update_particles", "cs\u00df", "computeMain", "CSMain", "cs_Main2"], "vs_shadow": ["vs_shadow", "shadow_\u00e9"]}
 
 
-def role_shader(rng, big_arrays=True, entry_names=False, rename=None):
+def multi_role_shader(rng, entry_names=False):
+    """structs that play several roles at once (input of one or more vertex entries, fragment input, fragment result, reachable from a
+    global, nested in a host struct), several vertex entries with different input structs that reuse location numbers, entry points in
+    any declaration order (a consumer before its producer)"""
+    S = {"structs": [], "globals": [], "consts": [], "overrides": [], "functions": [], "entries": []}
+    n = rng.randint(2, 4)
+    roles = {}
+    for i in range(n):
+        name = "R%d" % i
+        rs = {r for r in ("vin", "fin", "fout", "global", "nested") if rng.random() < 0.4}
+        if i == 0:
+            rs.add("vin")
+        if "nested" in rs:
+            rs.discard("global")
+        ints = "fin" not in rs
+        types = FLOATVECS + ([{"k": "scalar", "s": "u32"}, {"k": "vec", "n": 2, "s": "i32"}, {"k": "vec", "n": 4, "s": "u32"}] if ints else [])
+        nm = rng.randint(1, 3)
+        base = rng.choice([0, 0, 1, 2])            # overlapping location numbers between structs on purpose
+        locs = rng.sample(range(base, base + nm + 1), nm)
+        S["structs"].append({"name": name, "members": [{"name": "f%d_%d" % (i, j), "ty": rng.choice(types), "io": {"k": "loc", "n": locs[j]}} for j in range(nm)]})
+        roles[name] = rs
+    locs_of = {d["name"]: {m["io"]["n"] for m in d["members"]} for d in S["structs"]}
+    b = [0]
+
+    def bind(name, space, ty):
+        S["globals"].append({"name": name, "space": space, "group": "0", "binding": str(b[0]), "ty": ty})
+        b[0] += 1
+    for name, rs in roles.items():
+        if "global" in rs:
+            bind("g_" + name.lower(), rng.choice(["storage_r", "storage_rw", "uniform"]), {"k": "struct", "name": name})
+        if "nested" in rs:
+            S["structs"].append({"name": "Host" + name, "members": [{"name": "head", "ty": {"k": "vec", "n": 4, "s": "f32"}}, {"name": "inner", "ty": {"k": "struct", "name": name}}]})
+            bind("h_" + name.lower(), rng.choice(["storage_r", "uniform"]), {"k": "struct", "name": "Host" + name})
+
+    def body():
+        return [{"k": "access", "g": gl["name"], "how": "load"} for gl in S["globals"] if rng.random() < 0.6]
+    vins = [k for k, rs in roles.items() if "vin" in rs]
+    entries = []
+    for e in range(rng.randint(1, 3)):
+        chosen, used = [], set()
+        for k in rng.sample(vins, len(vins)):
+            if not (locs_of[k] & used) and (not chosen or rng.random() < 0.6):
+                chosen.append(k)
+                used |= locs_of[k]
+        params = [{"k": "struct", "name": "in_%s" % k.lower(), "ty": k} for k in chosen]
+        if rng.random() < 0.3:
+            params.append({"k": "builtin", "name": "vidx", "b": "vertex_index"})
+        entries.append({"name": "vs_%d" % e, "stage": "vertex", "params": params, "result": {"k": "builtin", "b": "position"}, "body": body(), "wg": []})
+    fins = [k for k, rs in roles.items() if "fin" in rs]
+    fouts = [k for k, rs in roles.items() if "fout" in rs]
+    for e in range(rng.randint(1, 2)):
+        fe = {"name": "fs_%d" % e, "stage": "fragment", "params": [], "body": body(), "wg": []}
+        if fins and rng.random() < 0.8:
+            k = rng.choice(fins)
+            fe["params"].append({"k": "struct", "name": "in_%s" % k.lower(), "ty": k})
+        if fouts and rng.random() < 0.8:
+            fe["result"] = {"k": "struct", "ty": rng.choice(fouts)}
+        elif rng.random() < 0.5:
+            fe["result"] = {"k": "loc", "n": 0, "ty": {"k": "vec", "n": 4, "s": "f32"}}
+        entries.append(fe)
+    if rng.random() < 0.3:
+        entries.append({"name": "cs_0", "stage": "compute", "params": [], "body": body(), "wg": ["8"]})
+    rng.shuffle(entries)
+    S["entries"] = entries
+    return S, False
+
+
+def role_shader(rng, big_arrays=True, entry_names=False, rename=None, multi=None):
+    if multi is None:
+        multi = rng.random() < 0.2
+    if multi:
+        S, has_rt = multi_role_shader(rng)
+        if rng.random() < 0.3:
+            rename_structs(S, rng)
+        if rng.random() < 0.25:
+            add_aliases(S, rng)
+        return S, has_rt
     S, has_rt = role_shader0(rng, big_arrays, entry_names)
     if rename is None:
         rename = rng.random() < 0.35
     if rename:
         rename_structs(S, rng)
+    if rng.random() < 0.3:
+        restyle_globals(S, rng, 0.6)
+    if rng.random() < 0.25:
+        add_aliases(S, rng)
     return S, has_rt
 
 
@@ -586,8 +743,13 @@ def role_shader0(rng, big_arrays=True, entry_names=False):
         S["structs"].append({"name": "PushData", "members": host_members(rng, "storage_r")[:3]})
         S["globals"].append({"name": "pc", "space": "push", "ty": {"k": "struct", "name": "PushData"}})
     if rng.random() < 0.2:
-        S["structs"].append({"name": "Scratch", "members": [{"name": "s%d" % j, "ty": rand_leaf(rng)} for j in range(rng.randint(1, 3))]})
+        S["structs"].append({"name": "Scratch", "members": [{"name": "s%d" % j, "ty": ({"k": "scalar", "s": "bool"} if rng.random() < 0.25 else rand_leaf(rng))} for j in range(rng.randint(1, 3))]})
         S["globals"].append({"name": "scratch", "space": rng.choice(["workgroup", "private"]), "ty": {"k": "struct", "name": "Scratch"}})
+    if rng.random() < 0.15:
+        # a struct reachable only through a workgroup array whose length is an override
+        S["structs"].append({"name": "TileSample", "members": [{"name": "t%d" % j, "ty": rand_leaf(rng)} for j in range(rng.randint(1, 2))]})
+        S["overrides"].append({"name": "tile_size", "ty": "u32", "default": "16u"})
+        S["globals"].append({"name": "tile", "space": "workgroup", "ty": {"k": "array", "n": 4, "len": "tile_size", "e": {"k": "struct", "name": "TileSample"}}})
     if rng.random() < 0.25 and any(x["name"] == "VertexInput" for x in S["structs"]) and not any("io" in m and m["io"]["k"] == "builtin" for x in S["structs"] if x["name"] == "VertexInput" for m in x["members"]):
         bind("vertex_pull", "storage_r", {"k": "array", "n": 4, "e": {"k": "struct", "name": "VertexInput"}})
     if rng.random() < 0.3:
@@ -610,6 +772,24 @@ def role_shader0(rng, big_arrays=True, entry_names=False):
                         n["with"] = comp
                     body.append(n)
         return body
+    # variables without a binding may be declared anywhere between the resources
+    plain = [g_ for g_ in S["globals"] if "group" not in g_]
+    if plain and rng.random() < 0.6:
+        rest = [g_ for g_ in S["globals"] if "group" in g_]
+        for g_ in plain:
+            rest.insert(rng.randint(0, len(rest)), g_)
+        S["globals"] = rest
+    # input structs made of builtins only
+    has_bi = any(m.get("io", {}).get("k") == "builtin" for x in S["structs"] if x["name"] == "VertexInput" for m in x["members"]) or any(p_["k"] == "builtin" for p_ in vparams)
+    if not has_bi and rng.random() < 0.2:
+        S["structs"].append({"name": "VertexIndices", "members": [{"name": "vertex", "ty": {"k": "scalar", "s": "u32"}, "io": {"k": "builtin", "b": "vertex_index"}},
+                                                                     {"name": "instance", "ty": {"k": "scalar", "s": "u32"}, "io": {"k": "builtin", "b": "instance_index"}}]})
+        vparams.insert(rng.randint(0, len(vparams)), {"k": "struct", "name": "indices", "ty": "VertexIndices"})
+    cparams = []
+    if rng.random() < 0.4:
+        S["structs"].append({"name": "ComputeInput", "members": [{"name": "gid", "ty": {"k": "vec", "n": 3, "s": "u32"}, "io": {"k": "builtin", "b": "global_invocation_id"}}]
+                             + ([{"name": "lidx", "ty": {"k": "scalar", "s": "u32"}, "io": {"k": "builtin", "b": "local_invocation_index"}}] if rng.random() < 0.5 else [])})
+        cparams.append({"k": "struct", "name": "cin", "ty": "ComputeInput"})
     S["entries"].append({"name": "vs_main", "stage": "vertex", "params": vparams, "result": vres, "body": uses("vertex"), "wg": []})
     if rng.random() < 0.3 and vparams:
         S["entries"].append({"name": "vs_shadow", "stage": "vertex", "params": list(reversed(vparams)), "result": {"k": "builtin", "b": "position"}, "body": uses("vertex"), "wg": []})
@@ -618,7 +798,9 @@ def role_shader0(rng, big_arrays=True, entry_names=False):
         e["result"] = fres
     S["entries"].append(e)
     if rng.random() < 0.5:
-        S["entries"].append({"name": "cs_main", "stage": "compute", "params": [], "body": uses("compute"), "wg": [str(rng.choice([1, 8, 64]))] + ([str(rng.choice([1, 4]))] if rng.random() < 0.5 else [])})
+        S["entries"].append({"name": "cs_main", "stage": "compute", "params": cparams, "body": uses("compute"), "wg": [str(rng.choice([1, 8, 64]))] + ([str(rng.choice([1, 4]))] if rng.random() < 0.5 else [])})
+    if cparams and not any(e["stage"] == "compute" for e in S["entries"]):
+        S["structs"] = [x for x in S["structs"] if x["name"] != "ComputeInput"]
     if entry_names:
         for e in S["entries"]:
             e["name"] = rng.choice(ENTRY_NAMES[e["name"]])
@@ -849,7 +1031,8 @@ def const_table(rng):
     k = [0]
 
     def add(decl, expr, expect):
-        t.append({"name": "K%d" % k[0], **({"decl": decl} if decl else {}), "expr": expr, **({"expect": expect} if expect else {})})
+        nonscalar = expr.startswith(("vec", "mat", "array"))
+        t.append({"name": "K%d" % k[0], **({"decl": decl} if decl else {}), "expr": expr, **({"expect": expect} if expect else {}), **({"nonscalar": True} if nonscalar else {})})
         k[0] += 1
         return "K%d" % (k[0] - 1)
     # f32: plain, extremes, subnormals, negative zero, values needing 9 significant digits
@@ -907,6 +1090,22 @@ def const_table(rng):
     add("vec2<u32>", "vec2<u32>(1u, 2u)", None)
     add(None, "array<f32, 2>(1.0, 2.0)", None)
     add(None, "mat2x2<f32>(1.0, 0.0, 0.0, 1.0)", None)
+    # zero-value constructors of scalar types: the constant-evaluated value is the zero of the type
+    add(None, "f32()", "f32:00000000")
+    add("u32", "u32()", "u32:0")
+    add(None, "i32()", "i32:0")
+    add(None, "bool()", "bool:false")
+    add("f32", "f32(2)", "f32:" + f32_bits(2.0))
+    add(None, "i32(7)", "i32:7")
+    add(None, "u32(1.0f)", "u32:1")
+    # zero-value constructors of non-scalar types
+    add(None, "vec3<f32>()", None)
+    add(None, "vec2<u32>()", None)
+    add("vec4<i32>", "vec4<i32>()", None)
+    add(None, "mat3x3<f32>()", None)
+    add(None, "array<u32, 2>()", None)
+    add(None, "vec3<f32>(1.0)", None)
+    add(None, "vec2<bool>(true, false)", None)
     return t
 
 
@@ -922,7 +1121,13 @@ def const_shaders(rng, n_shaders, per=24):
         rng.shuffle(lits)
         sel = lits[:per]
         for j, c in enumerate(sel):
-            c["name"] = rng.choice(["C", "k_", "\u03ba", "MAX_", "v\u00e9"]) + str(j)
+            c["name"] = rng.choice(["C", "k_", "\u03ba", "MAX_", "v\u00e9", "camelCase", "entry_", "source_"]) + str(j)
+        # names that resemble items the generator emits itself (but are different identifiers: Rust is case sensitive)
+        special = (["source", "device", "targets"] if i % 3 == 2 else []) + ["entry_fs_main", "push_constant_stages", "Source", "entry_FS_MAIN", "bind_groups_", "fs_main_entry_", "Entry_Fs_Main"]
+        rng.shuffle(special)
+        for j, nm_ in enumerate(special[:rng.randint(1, 4)]):
+            if j < len(sel):
+                sel[j]["name"] = nm_
         out.append({"structs": [], "globals": [], "consts": sel, "overrides": [], "functions": [], "entries": [frag_entry()]})
     return out
 
@@ -965,5 +1170,22 @@ def override_shaders(rng, n):
                          {"name": "vs_fullscreen", "stage": "vertex", "params": [{"k": "builtin", "name": "vi", "b": "vertex_index"}], "result": {"k": "builtin", "b": "position"}, "body": [], "wg": []},
                          {"name": "fs_main", "stage": "fragment", "params": [], "result": {"k": "loc", "n": 0, "ty": VEC4}, "body": [], "wg": []},
                          {"name": "cs_main", "stage": "compute", "params": [], "body": [], "wg": ["1"]}]}
+        # other entry sets: compute only, fragment only, no entry point at all, vertex only
+        r = len(shaders) % 6
+        if r == 1:
+            S["entries"] = [e for e in S["entries"] if e["stage"] == "compute"]
+        elif r == 2:
+            S["entries"] = [e for e in S["entries"] if e["stage"] == "fragment"]
+        elif r == 3:
+            S["entries"] = []
+        elif r == 4:
+            S["entries"] = [e for e in S["entries"] if e["stage"] == "vertex"]
+        if not any(p_.get("ty") == "VIn" for e in S["entries"] for p_ in e["params"]):
+            S["structs"] = []
         shaders.append(S)
+    # module constants next to the overrides, one of them named like a local of constants()
+    for nm in ("value", "scale_k"):
+        shaders.append({"structs": [], "globals": [], "consts": [{"name": nm, "decl": "u32", "expr": "3u", "expect": "u32:3"}],
+                        "overrides": [{"name": "x", "ty": "u32", "default": "5u"}, {"name": "y", "ty": "u32"}], "functions": [],
+                        "entries": [{"name": "fs_main", "stage": "fragment", "params": [], "result": {"k": "loc", "n": 0, "ty": VEC4}, "body": [], "wg": []}]})
     return shaders
